@@ -12,7 +12,7 @@ from contracts.common import Item
 from contracts import dumpers as DM, natives as N
 
 TRUSTED = ['T1 pyvc model of Python (DESIGN 3)', 'T13 text-mode tell() after writes = bytes written (utf-8, newline=\'\'); '
-           'hashlib.md5 is a function of the bytes', 'T4 Resource.source is the descriptor path; Resource.descriptor is a private copy',
+           'hashlib.md5 is a function of the bytes', 'T4 Resource.source is the descriptor path (joined to the base path "."); Resource.descriptor is a private copy',
            'T16 z3 / cvc5']
 ASSUMPTIONS = ['hash_handler: that consecutive read(1024) results concatenate to the file content is the file-object contract (T13), not proved']
 ITEMS = [
